@@ -49,6 +49,20 @@ def real(e):
     return Expr(getattr(e, "sympy", e), real=True).expand()
 
 
+def wellformed(E, tg):
+    """every index occurs at most twice in a term (exponents counted), a
+    target index exactly once"""
+    for t in E.terms:
+        cnt = {}
+        for o in t.objects:
+            for i in o.idx:
+                cnt[i] = cnt.get(i, 0) + int(o.exponent)
+        if any(n > 2 for n in cnt.values()) or \
+                any(cnt.get(x, 0) != 1 for x in tg):
+            return False
+    return True
+
+
 def itmd_tensor(cls, rng, pools):
     """tensor of an intermediate with indices drawn from the pools"""
     default = get_symbols("".join(cls.default_idx))
@@ -161,7 +175,7 @@ def run(ctx):
                  kind=label.split(":")[0])
 
     # ---- (a) expand_intermediates ---------------------------------------
-    n_exp = 40 if quick else 250
+    n_exp = 100 if quick else 600
     for k in range(n_exp):
         occ, virt = G.pool("o", 8), G.pool("v", 8)
         ntg = rng.choice([(0, 0), (1, 1), (2, 2)])
@@ -191,6 +205,8 @@ def run(ctx):
         e = term + (extra if rng.random() < 0.4 else 0)
         fully = rng.random() < 0.6
         E = Expr(e, real=True, target_idx=tg)
+        if not wellformed(E, tg):
+            continue
         try:
             got = E.copy().expand_intermediates(fully_expand=fully)
         except Exception as ex:
@@ -225,6 +241,7 @@ def run(ctx):
 
     # ---- (b) factor_intermediates, (c) reduce_expr --------------------------
     fact = sys.modules["adcgen.factor_intermediates"].factor_intermediates
+    simplify = sys.modules["adcgen.simplify"].simplify
     reduce_expr = sys.modules["adcgen.reduce_expr"].reduce_expr
     n_fac = 10 if quick else 60
     fnames = ["t2_1", "t1_2", "t2_2", "p0_2_oo", "p0_2_vv", "t2eri_3",
@@ -238,6 +255,27 @@ def run(ctx):
         t, idx = itmd_tensor(itmds[name], rng, pools)
         # targets: a random subset of the intermediate's indices stays open
         rest = G.random_term(rng, 1, pools, names=["X", "Y", "d"])
+        mode = rng.choice(["complete", "complete", "scaled_term", "dropped",
+                           "merged_scaled"])
+        if k == 0:
+            mode, name = "merged_scaled", "t2_2"
+            t, idx = itmd_tensor(itmds[name], rng, pools)
+        if mode == "merged_scaled":
+            # remainder antisymmetric in two indices of the intermediate:
+            # the expansion merges symmetry partners of the definition, a
+            # term with deviating prefactor then covers several of its terms
+            io = [x for x in idx if x.space == "occ"]
+            iv = [x for x in idx if x.space == "virt"]
+            fo = [x for x in occ[5:8]]
+            fv = [x for x in virt[5:8]]
+            if len(io) >= 2 and (len(iv) < 2 or rng.random() < 0.5):
+                rest = AntiSymmetricTensor("V", (fv[0], fv[1]),
+                                           (io[0], io[1]))
+            elif len(iv) >= 2:
+                rest = AntiSymmetricTensor("V", (iv[0], iv[1]),
+                                           (fo[0], fo[1]))
+            else:
+                mode = "scaled_term"
         base = G.random_coef(rng) * t * rest
         tg = sorted([s for s in base.atoms(Index)
                      if list(Mul.make_args(base)).count(s) == 0
@@ -246,9 +284,18 @@ def run(ctx):
         inp = E0.copy().expand_intermediates().expand()
         # drop / perturb a term sometimes: "mixed prefactor" and
         # "not factorable" branches
-        mode = rng.choice(["complete", "complete", "scaled_term", "dropped"])
+        if mode == "merged_scaled":
+            # merge the symmetry partners (fraction-aware simplification)
+            inp = reduce_expr(E0.copy())
         tl = list(Add.make_args(inp.sympy))
-        if mode == "scaled_term" and len(tl) > 1:
+        if mode == "merged_scaled" and len(tl) > 1:
+            # scale a term with the largest prefactor (a merged one)
+            big = max(abs(Expr(x).terms[0].prefactor) for x in tl)
+            cand = [j for j, x in enumerate(tl)
+                    if abs(Expr(x).terms[0].prefactor) == big]
+            j = rng.choice(cand)
+            tl[j] = tl[j] * Rational(3, 2)
+        elif mode == "scaled_term" and len(tl) > 1:
             j = rng.randrange(len(tl))
             tl[j] = tl[j] * rng.choice([2, Rational(1, 2), -1])
         elif mode == "dropped" and len(tl) > 1:
